@@ -32,8 +32,8 @@ from harness import fw
 
 META = {
     "id": "C09",
-    "technique": "Coq proof (heap model of the emitted list helper templates; single-owner invariant by induction over statements and passes; simulation of the CPython reference semantics) + extracted-model correspondence with the real transpiler's firmware compiled with clang++ ASan/UBSan and an interposed allocation counter + CPython reference run + property oracle on the sanitizer verdict and per-pass heap usage",
-    "level_text": "Theorems C09_* (coq/Props/C09.v): every list helper is safe iff Python's index condition holds and frees exactly what it replaces (all heaps, all lists), also when the `const T&` argument of append/remove refers into a list buffer - of the same list included (C09_argument_alias_safe); tuple assignments that permute declared lists keep every buffer single-owned (values after = permutation of values before, proved for all permutations); for every single-owner list program and every number of passes the firmware is memory-safe whenever CPython raises no exception, every reachable heap holds exactly the cells of the live lists, and heap usage follows Python's live data (partial: guard single_owner). Refuted with witnesses reproduced on the real firmware under ASan: `b = a` aliasing (use after free, double free), by-value list parameter mutated by the callee, list locals of the main loop and re-assignment temporaries (one block leaked per pass), `c = a` deep copy vs Python alias (heap grows while Python's live data is constant), `a = ident(a)` (__redu_list_assign from a temporary sharing the buffer: use after free), `a, b = [..], a` (tuple assignment drops a buffer without delete[]: leak); the parser's parse-time copy of every list and the folding of len() are inside the model (coq/Device/DListLen.v): C09_len_fold_safe_partial / C09_len_fold_no_leak_partial - for every script of the len() layer inside the guard len_ok, every sequence of run-time values and every number of passes, CPython free of exceptions implies a memory-safe firmware run with the FOLDED lengths; refuted with witnesses reproduced under ASan: folded len() stale through an untaken branch, in a later pass of an unbalanced loop body, after a re-binding inside a branch, after remove(<run-time value>) dropped the wrong entry of the copy (out-of-bounds reads). Third round: read-only sharing (coq/Device/DListProg.v frozen_ok, proofs coq/Proofs/DListShareP.v) - C09_shared_result_python_safe_partial / C09_shared_result_no_leak_partial: for every history in which lists are assigned from calls that return one of their list arguments (the source chosen at run time, different from pass to pass), from other lists and from conditional expressions, the names involved being otherwise only read, CPython free of exceptions implies a memory-safe firmware run in which every name owns its own buffer and the heap holds CPython's live data counted per name (simulation relation that admits Python aliases between read-only names); refuted: heap usage varies while Python's live data per object is constant (C09_shared_result_heap_varies_refuted). Function scope of len() folding (fn_env, first_env): a parameter is never folded whatever global it shadows (C09_fn_param_never_folded, C09_fn_param_len_is_argument_len), a global keeps the copy of the place where the function's list variant is parsed - its FIRST call (C09_fn_global_keeps_def_copy); calls `h(x)` with `def h(P): return P[len(Y) + k]` are inside C09_len_fold_safe_partial; refuted: len() of a global inside a function is stale at a later call (C09_stale_len_first_call_refuted).",
+    "technique": "Coq proof (heap model of the emitted list helper templates with value semantics; unique-ownership invariant by induction over statements, blocks and passes for every declared-before-use program; simulation of the CPython reference semantics) + extracted-model correspondence with the real transpiler's firmware compiled with clang++ ASan/UBSan and an interposed allocation counter + CPython reference run + property oracle on the sanitizer verdict and per-pass heap usage",
+    "level_text": "Theorems C09_* (coq/Props/C09.v). Since the repair of __redu_list (rule of five: deep-copying copy constructor / copy assignment, buffer-stealing move constructor / move assignment, destructor) the model (coq/Device/DList.v, DListProg.v) gives lists VALUE semantics: C09_value_semantics_safe - for EVERY list program whose names are declared before they are used (guard value_ok: aliases `b = a`, by-value parameters the callee mutates, lists returned by functions incl. `a = ident(a)`, lists first assigned in the main loop, re-assignment from literals / comprehensions, ANY tuple assignment, run as the block of simple statements the compiler makes of them: every temporary / parameter is a variable with a copy constructor and a destructor) and EVERY history of passes the firmware either runs safely, every list variable then owning a distinct live block of exactly its size with NOTHING else live (no leak), or stops at an out-of-bounds index; never a use after free, never a double free (induction over statements, blocks and passes). The eight refutations of the ownership findings became C09_*_repaired (inside value_ok, CPython and firmware run, heap usage after pass 4 = after pass 1). Helper level: every list helper is safe iff Python's index condition holds and frees exactly what it replaces, also when the `const T&` argument of append/remove refers into a list buffer - of the same list included (C09_argument_alias_safe); copy assignment fills the new buffer before it releases the old one. Python simulation (heap usage = CPython's live data, no leak when it is constant): C09_python_safe_partial / C09_no_leak_partial / C09_history_* under single_owner (WITHOUT tuple assignments since the repair: their copy-based semantics is covered by C09_value_semantics_safe and by the oracle, the simulation proof was not redone), C09_len_fold_* (parser's parse-time list copies, folded len(); guard len_ok, also without tuple assignments), C09_shared_result_* (read-only sharing, guard frozen_ok). Still refuted (copies where Python aliases): C09_clone_divergence_refuted, C09_clone_out_of_bounds_refuted, C09_shared_result_heap_varies_refuted.",
     "level_note": "Trusted: Coq kernel, extraction (ExtrOcamlBasic), OCaml driver, mock Arduino core (operator new[]/delete[] interposed: live-block/byte counter), clang++ 14 AddressSanitizer/UBSan as the memory checker, CPython 3.12 as the reference. The theorems are about the Gallina heap model; the correspondence bounds its distance from emitter.py's LIST_HELPER_SNIPPET and parser.py's assignment lowering. Element values are ints; String buffers, C int overflow of range(), control flow around list statements and the heap behaviour of the real AVR allocator are outside the model.",
     "design_ref": "DESIGN.md section 4 C09",
 }
@@ -377,8 +377,162 @@ def guard_fz(prog) -> bool:
 
 
 def guard_py(prog) -> bool:
-    """the oracle's domain: single_owner / len_ok / frozen_ok of the Coq models"""
-    return guard_so(prog) or guard_fz(prog)
+    """the oracle's FULL domain (memory-safety clause and leak clause): single_owner / len_ok / frozen_ok of the Coq models, or
+    value_ok (every name declared before it is used; C09_value_semantics_safe) on a program whose CPython run never
+    differs - name by name, after every statement - from the run with VALUE semantics (sim2: no alias is ever observable)"""
+    if guard_so(prog) or guard_fz(prog):
+        return True
+    if not guard_vs(prog):
+        return False
+    d = sim2(prog)
+    return bool(d and d["py_ok"] and d["same"])
+
+
+def guard_safe(prog) -> bool:
+    """the oracle's memory-safety-only domain: value_ok programs CPython runs without exception and whose run with VALUE
+    semantics (what the repaired firmware does: `b = a`, by-value parameters, function results, tuple temporaries are
+    copies) raises no IndexError either.  The leak clause is not judged here (copies where Python aliases make the amount
+    of data differ: F-C09-clone-divergence-*, F-C09-call-result-copy-heap-varies)."""
+    if not guard_vs(prog):
+        return False
+    d = sim2(prog)
+    return bool(d and d["py_ok"] and d["val_ok"])
+
+
+def guard_vs(prog) -> bool:
+    """value_ok of coq/Device/DListProg.v on the history the passes execute (cross-checked against the model's bit):
+    every name a statement uses is declared when it runs; a tuple assignment has at least as many right-hand sides as targets"""
+    if prog.get("lines") or prog.get("t"):
+        return False
+    hist = history(prog) if (uses_c(prog) or gated(prog)) else [prog["body"]] * prog["N"]
+    decl = []
+
+    def add(x):
+        if x not in decl:
+            decl.append(x)
+
+    def ok(st, in_setup):
+        k = st[0]
+        if k in (0, 1):
+            add(st[1])
+            return True
+        if k in (2, 11):
+            if st[2] not in decl:
+                return False
+            add(st[1])
+            return True
+        if k in (3, 4, 5, 6, 7):
+            return st[1] in decl
+        if k in (8, 9):
+            return st[1] in decl and st[2] in decl
+        if k == 10:
+            xs, rs = st[1], st[2]
+            if any(r[0] == 0 and r[1] not in decl for r in rs) or len(xs) > len(rs):
+                return False
+            for x in xs:
+                add(x)
+            return True
+        return False
+
+    if not all(ok(st, True) for st in prog["setup"]):
+        return False
+    return all(ok(st, False) for ss in hist for st in ss)
+
+
+def sim2(prog):
+    """CPython's semantics (names are references) and VALUE semantics (every `x = y`, by-value parameter, function result
+    and tuple temporary is a copy; remove of an absent value is a no-op) side by side on the history the passes execute.
+    -> {"py_ok": CPython raises nothing, "val_ok": the value-semantics run indexes inside its lists,
+        "same": as long as both run, every name holds equal contents after every statement}, None for programs outside the
+    vocabulary (len layer, literal lines)"""
+    if prog.get("lines") or prog.get("t"):
+        return None
+    hist = history(prog) if (uses_c(prog) or gated(prog)) else [prog["body"]] * prog["N"]
+    ref, val = {}, {}
+    out = {"py_ok": True, "val_ok": True, "same": True}
+
+    def idx(lst, i):
+        return lst[i]          # IndexError when outside -len .. len-1
+
+    def ex(st):
+        k = st[0]
+        # ---- CPython
+        if out["py_ok"]:
+            try:
+                if k == 0:
+                    ref[st[1]] = list(st[2])
+                elif k == 1:
+                    v = comp_vals(st[2])
+                    if v is None:
+                        raise ValueError
+                    ref[st[1]] = v
+                elif k in (2, 11):
+                    ref[st[1]] = ref[st[2]]
+                elif k in (3, 7):
+                    ref[st[1]].append(st[2])
+                    if k == 7:
+                        idx(ref[st[1]], 0)
+                elif k == 4:
+                    ref[st[1]].remove(st[2])
+                elif k in (5, 6):
+                    idx(ref[st[1]], st[2])
+                elif k == 8:
+                    ref[st[1]].append(idx(ref[st[2]], st[3]))
+                elif k == 9:
+                    ref[st[1]].remove(idx(ref[st[2]], st[3]))
+                elif k == 10:
+                    vals = [ref[r[1]] if r[0] == 0 else list(r[1]) for r in st[2]]
+                    if len(vals) != len(st[1]):
+                        raise ValueError
+                    for x, v in zip(st[1], vals):
+                        ref[x] = v
+                else:
+                    raise KeyError(k)
+            except (IndexError, ValueError, KeyError):
+                out["py_ok"] = False
+        # ---- value semantics
+        if out["val_ok"]:
+            try:
+                if k == 0:
+                    val[st[1]] = list(st[2])
+                elif k == 1:
+                    val[st[1]] = comp_vals(st[2]) or []
+                elif k in (2, 11):
+                    val[st[1]] = list(val[st[2]])
+                elif k == 3:
+                    val[st[1]].append(st[2])
+                elif k == 7:
+                    idx(val[st[1]] + [st[2]], 0)
+                elif k == 4:
+                    if st[2] in val[st[1]]:
+                        val[st[1]].remove(st[2])
+                elif k in (5, 6):
+                    idx(val[st[1]], st[2])
+                elif k == 8:
+                    val[st[1]].append(idx(val[st[2]], st[3]))
+                elif k == 9:
+                    e = idx(val[st[2]], st[3])
+                    if e in val[st[1]]:
+                        val[st[1]].remove(e)
+                elif k == 10:
+                    vals = [list(val[r[1]]) if r[0] == 0 else list(r[1]) for r in st[2]]
+                    for x, v in zip(st[1], vals):
+                        val[x] = list(v)
+                else:
+                    raise KeyError(k)
+            except (IndexError, KeyError):
+                out["val_ok"] = False
+        if out["py_ok"] and out["val_ok"] and ref != val:
+            out["same"] = False
+
+    for st in prog["setup"]:
+        ex(st)
+    for ss in hist:
+        for st in ss:
+            ex(st)
+    if not out["val_ok"]:
+        out["same"] = False
+    return out
 
 
 def guard_so(prog) -> bool:
@@ -398,14 +552,7 @@ def guard_so(prog) -> bool:
             return s[1] in decl
         if t in (8, 9):
             return s[1] in decl and s[2] in decl
-        if t == 10:
-            xs, rs = s[1], s[2]
-            if any(r[0] != 0 for r in rs):
-                return False
-            ys = [r[1] for r in rs]
-            return (len(xs) == len(ys) and len(set(xs)) == len(xs) and len(set(ys)) == len(ys)
-                    and all(y in xs for y in ys) and all(x in decl for x in xs))
-        return False
+        return False          # tuple assignments: outside single_owner since the value-semantics repair (value_ok covers them)
 
     for s in prog["setup"]:
         t = s[0]
@@ -415,7 +562,7 @@ def guard_so(prog) -> bool:
             decl.append(s[1])
         elif not use_ok(s):
             return False
-    if any(st[0] == 16 for st in prog["body"]):
+    if gated(prog) or any(st[0] == 16 for st in prog["body"]):
         return all(use_ok(st) for ss in history(prog) for st in ss)          # as the model: the statements the passes execute
     return all(use_ok(s) for s in prog["body"])
 
@@ -473,14 +620,7 @@ def track_py(prog):
                 return True          # the function's first call: its list variant is parsed here, with the copies as they are now
             c0 = fenv[key].get(y)          # the copy the function body was parsed with
             return c0 is None or (cur(y) is not None and len(cur(y)) == len(c0))
-        if k == 10:
-            xs, rs = s[1], s[2]
-            if any(r[0] != 0 for r in rs):
-                return False
-            ys = [r[1] for r in rs]
-            return (len(xs) == len(ys) and len(set(xs)) == len(xs) and len(set(ys)) == len(ys)
-                    and all(y in xs for y in ys) and all(x in decl for x in xs))
-        return False
+        return False          # k == 10: tuple assignments are outside len_ok since the value-semantics repair
 
     fenv = {}
 
@@ -1228,6 +1368,100 @@ def gen_outside_part(rng, N):
     return {"setup": setup, "body": body, "N": N, "kind": "outside-" + kind}
 
 
+def gen_value_part(rng, N, flavour):
+    """a program inside the region the value-semantics repair opened (C09_value_semantics_safe): aliases `b = a` into new and
+    declared names, re-assignment from literals / comprehensions, lists first assigned in the main loop, a callee that
+    mutates its by-value list parameter, `x = ident(y)` / `a = ident(a)`, tuple assignments with literals, repeated names, new
+    targets and permutations.  flavour "rebind": only re-binding statements and reads (CPython's aliases are never
+    observable: full oracle domain, leak clause included); "mutate": appends / removes / by-value mutation mixed in (the
+    memory-safety clause; the leak clause where the two semantics still agree).  Every list has the static length L when it
+    is (re)assigned (the transpiler rejects `x = <list of another known length>` on a declared list)."""
+    for _ in range(60):
+        L = rng.choice([1, 2, 2, 3])
+        nv = rng.choice([2, 2, 3])
+        names = list(range(nv))
+        fresh = [nv]
+
+        def lit():
+            return [rng.choice(VALS) for _ in range(L)]
+
+        def decl(x):
+            if rng.random() < 0.7:
+                return [0, x, lit()]
+            return [1, x, [0, L, 1, rng.choice([1, 2, -1]), rng.choice([0, 1, -3])]]
+
+        def new_name():
+            fresh[0] += 1
+            return fresh[0] - 1
+
+        def rebind(known, in_body):
+            x, y = rng.choice(known), rng.choice(known)
+            r = rng.choice(["alias-new", "clone", "relit", "relit", "ident-self", "ident", "ident-new", "tuple-lit", "tuple-lit2",
+                            "tuple-dup", "tuple-new", "perm", "local", "read", "read", "call-read"])
+            if r == "alias-new":
+                z = new_name()
+                known.append(z)
+                return [[2, z, y]]
+            if r == "clone":
+                return [[2, x, y]]
+            if r == "relit":
+                return [decl(x)]
+            if r == "ident-self":
+                return [[11, x, x]]
+            if r == "ident":
+                return [[11, x, y]]
+            if r == "ident-new":
+                z = new_name()
+                known.append(z)
+                return [[11, z, y]]
+            if r == "tuple-lit":
+                return [[10, [x, y] if x != y else [x], [[1, lit()], [0, x]][:2 if x != y else 1]]]
+            if r == "tuple-lit2" and x != y:
+                return [[10, [x, y], [[1, lit()], [1, lit()]]]]
+            if r == "tuple-dup" and x != y:
+                return [[10, [x, y], [[0, y], [0, y]]]]
+            if r == "tuple-new":
+                z, w = new_name(), new_name()
+                known.extend([z, w])
+                return [[10, [z, w], [[0, y], [0, x]]]]
+            if r == "perm" and len(known) >= 2:
+                return [gen_perm(rng, known)]
+            if r == "local" and in_body:
+                z = new_name()
+                known.append(z)
+                return [decl(z), [5, z, rng.choice([0, -1])]]
+            if r == "call-read":
+                return [[6, x, rng.choice([0, -1, L - 1, -L])]]
+            return [[5, x, rng.choice([0, -1, L - 1, -L])]]
+
+        def mutate(known):
+            x, y = rng.choice(known), rng.choice(known)
+            r = rng.choice(["byvalue", "byvalue", "pair", "pair", "append", "elem", "rot"])
+            if r == "byvalue":
+                return [[7, x, rng.choice([9, 11])]] + ([[5, x, rng.choice([0, -1])]] if rng.random() < 0.6 else [])
+            if r == "pair":
+                v = rng.choice([50, 60, 70])
+                return [[3, x, v], [4, x, v]]
+            if r == "append":
+                return [[3, x, rng.choice(VALS)], [5, y, rng.choice([0, -1])]]
+            if r == "elem":
+                return [[8, x, y, rng.choice([0, -1])]]
+            return [[8, x, x, 0], [9, x, x, 0]]
+
+        setup = [decl(x) for x in names]
+        known = list(names)
+        for _ in range(rng.randint(0, 3)):
+            setup += rebind(known, False) if (flavour == "rebind" or rng.random() < 0.6) else mutate(known)
+        body = []
+        for _ in range(rng.randint(1, 4)):
+            body += rebind(known, True) if (flavour == "rebind" or rng.random() < 0.55) else mutate(known)
+        body.append([5, rng.choice(names), rng.choice([0, -1])])
+        part = {"setup": setup, "body": body, "N": N, "kind": "value-" + flavour}
+        if guard_vs(part) and guard_safe(part) and (flavour == "mutate" or guard_py(part)):
+            return part
+    return {"setup": [[0, 0, [1, 2]]], "body": [[2, 1, 0], [5, 1, -1]], "N": N, "kind": "value-fallback"}
+
+
 EX_ALPHABET = [[3, 0, 5], [4, 0, 5], [4, 0, 1], [5, 0, -1], [5, 0, 1], [5, 0, 2], [2, 0, 0], [2, 1, 0], [0, 0, [7, 8]],
                [5, 1, 0], [3, 1, 6], [7, 0, 9], [6, 0, -2], [8, 0, 0, -1], [9, 0, 0, 0], [11, 0, 0]]
 
@@ -1321,8 +1555,8 @@ def py_ok(py, N) -> bool:
     return "head_exc" not in py and len(ph) == N + 1 and all("exc" not in q for q in ph)
 
 
-def oracle(prog, res):
-    """the statement of C09 on the real artefacts -> list of (key, what, expected, observed)"""
+def oracle(prog, res, leak=True):
+    """the statement of C09 on the real artefacts -> list of (key, what, expected, observed); leak=False: memory-safety clause only"""
     out = []
     r = res["fw"]
     if r is None or not r.get("compiled"):
@@ -1333,6 +1567,8 @@ def oracle(prog, res):
         tail = [ln for ln in r["stderr"].splitlines() if "SUMMARY" in ln or "runtime error" in ln][-2:]
         out.append((f"memory-error-{name}", f"CPython runs the script without exception, the firmware has a memory error ({name})",
                     "clean run under ASan/UBSan", {"class": name, "rc": r["rc"], "report": tail}))
+        return out
+    if not leak:
         return out
     ph = fw_phases(r["events"])
     pyp = res["py"]["phases"]
@@ -1368,8 +1604,8 @@ def reduce_failure(case, key):
         return None
     progs = [combine([p], case["prog"]["N"]) for p in parts]
     for p, res in zip(progs, run_all(progs)):
-        if guard_py(p) and py_ok(res["py"], p["N"]):
-            for f in oracle(p, res):
+        if (guard_py(p) or guard_safe(p)) and py_ok(res["py"], p["N"]):
+            for f in oracle(p, res, leak=guard_py(p)):
                 if f[0] == key:
                     return p, f
     return None
@@ -1433,7 +1669,8 @@ def model_verdict(m):
         else:
             perr = q[1]
     fz = bool(m[4]) if len(m) > 4 and isinstance(m[4], int) else None          # frozen_ok (wire modes 0 / 1 only)
-    return guard, fph, ferr, pph, perr, fz
+    vs = bool(m[5]) if len(m) > 5 and isinstance(m[5], int) else None          # value_ok (wire modes 0 / 1 only)
+    return guard, fph, ferr, pph, perr, fz, vs
 
 
 def run(ctx: C.Ctx):
@@ -1452,6 +1689,8 @@ def run(ctx: C.Ctx):
             parts.append(p)
     for i in range(500 if thorough else 60):
         parts.append(gen_outside_part(rng, N))
+    for i in range(700 if thorough else 90):
+        parts.append(gen_value_part(rng, N, "rebind" if i % 2 == 0 else "mutate"))
     for i in range(150 if thorough else 20):
         parts.append(gen_str_part(rng, N))
     for i in range(600 if thorough else 70):
@@ -1490,10 +1729,10 @@ def run(ctx: C.Ctx):
     #  - in-guard parts CPython runs without exception: oracle domain; those whose live data is constant from pass to
     #    pass are batched together so that the batch's live data is constant too (leak clause applies to every pass)
     #  - in-guard parts on which CPython raises (ValueError of remove): correspondence only
-    in_const, in_var, in_exc, out_g = [], [], [], []
+    in_const, in_var, in_exc, in_safe, out_g = [], [], [], [], []
     for p in safe_parts:
         if not guard_py(combine([p], N)):
-            out_g.append(p)
+            (in_safe if guard_safe(combine([p], N)) else out_g).append(p)
             continue
         lv = sim(combine([p], N))
         lvn = sim(combine([p], N), named=True)
@@ -1505,7 +1744,8 @@ def run(ctx: C.Ctx):
             in_var.append(p)
     cases = []
     for group0, fam in ((in_const, "batch-in-guard-constant-live-data"), (in_var, "batch-in-guard-varying-live-data"),
-                        (in_exc, "batch-in-guard-python-raises"), (out_g, "batch-outside-guard")):
+                        (in_exc, "batch-in-guard-python-raises"), (in_safe, "batch-value-semantics-safety-only"),
+                        (out_g, "batch-outside-guard")):
         # one potentiometer per sketch: parts of a batch share the per-pass run-time values
         def pkey(p):
             return (tuple(p["gvals"]) if p.get("gvals") else None, p.get("elem"), bool(p.get("t")), p["kind"].startswith("share"))
@@ -1545,6 +1785,8 @@ def run(ctx: C.Ctx):
         for s in prog["setup"] + prog["body"]:
             st["stmt_kinds"][str(s[0])] = st["stmt_kinds"].get(str(s[0]), 0) + 1
         g = guard_py(prog)
+        gs = (not g) and guard_safe(prog)
+        g_old = guard_so(prog) or guard_fz(prog)
         st["gated_statements"] += sum(1 for t in prog["gates"] if t >= 0)
         st["gated_sketches"] += gated(prog)
         py = res["py"]
@@ -1555,7 +1797,7 @@ def run(ctx: C.Ctx):
         # ---- transpile / compile
         if not res["tr"].get("ok"):
             st["transpile_rejected"] += 1
-            if g:
+            if g_old:
                 ctx.disagree("a single-owner list script was rejected by the transpiler: " + str(res["tr"].get("exc")) + ": " +
                              str(res["tr"].get("msg")), info, "accepted", res["tr"])
             continue
@@ -1568,11 +1810,13 @@ def run(ctx: C.Ctx):
         ph = fw_phases(r["events"]) if cls is None else []
         # ---- correspondence: model CPython run vs real CPython
         if mv is not None:
-            guard_m, mf, mferr, mp, mperr, fz_m = mv
+            guard_m, mf, mferr, mp, mperr, fz_m, vs_m = mv
             if guard_m != guard_so(prog):
                 ctx.disagree("guard: model single_owner / len_ok vs harness guard_so", info, guard_m, guard_so(prog))
             if fz_m is not None and fz_m != guard_fz(prog):
                 ctx.disagree("guard: model frozen_ok vs harness guard_fz", info, fz_m, guard_fz(prog))
+            if vs_m is not None and vs_m != guard_vs(prog):
+                ctx.disagree("guard: model value_ok vs harness guard_vs", info, vs_m, guard_vs(prog))
             pyp = py.get("phases", [])
             real_exc = next((q["exc"] for q in pyp if "exc" in q), None)
             if (mperr is None) != (real_exc is None) or (mperr is not None and EXC_CODE.get(real_exc) != mperr):
@@ -1629,14 +1873,16 @@ def run(ctx: C.Ctx):
                         ctx.disagree("class of the memory error differs (model vs sanitizer report)", info, KIND_NAMES[mferr],
                                      {"class": KIND_NAMES.get(cls, cls), "stderr": r["stderr"][-600:]})
         # ---- property oracle on the implementation (inside the guard, CPython exception-free)
-        if g and py_ok(py, prog["N"]):
+        if (g or gs) and py_ok(py, prog["N"]):
             st["in_guard_py_ok"] += 1
+            st["value_region_judged"] = st.get("value_region_judged", 0) + (0 if g_old else 1)
+            st["safety_only_judged"] = st.get("safety_only_judged", 0) + (1 if gs else 0)
             evaluations += prog["N"] + 1
             pyp = py["phases"]
             st["leak_pairs_checked"] += sum(1 for k in range(1, len(pyp) - 1)
-                                            if pyp[k]["live"] == pyp[k + 1]["live"] and pyp[k].get("named") == pyp[k + 1].get("named"))
+                                            if g and pyp[k]["live"] == pyp[k + 1]["live"] and pyp[k].get("named") == pyp[k + 1].get("named"))
             st["shared_phases"] += sum(1 for q in pyp if q.get("named") != q.get("live"))
-            for key, what, exp, obs in oracle(prog, res):
+            for key, what, exp, obs in oracle(prog, res, leak=g):
                 fcase, fwhat, fexp, fobs = info, what, exp, obs
                 if key not in seen_fail:
                     seen_fail.add(key)
@@ -1715,21 +1961,21 @@ def run(ctx: C.Ctx):
         "exhaustive": False,
         "exhaustive_part": f"loop bodies of length <= {3 if thorough else 2} over the 16-statement alphabet (classified by the model; "
                       f"{'all' if thorough else 'a seeded sample of the unsafe ones'} run on the firmware)",
-        "guard": "single_owner OR len_ok OR frozen_ok (harness guard_so / track_py / guard_fz, each cross-checked against the model's bit on every case). frozen_ok (read-only sharing): lists declared before the loop under fresh names; "
-                 "the names that occur in `x = <call returning the list y>` / `x = y` (x != y, both declared) are otherwise only read (index, by-value read-only call, element argument of another list's append/remove) or re-assigned "
-                 "among each other; the other names: append / remove / index / `x = x` / element arguments; no tuple assignment; the leak clause is evaluated between two passes only when CPython's live data is the same per object "
-                 "and per name (F-C09-call-result-copy-heap-varies). len_ok additionally admits calls of `def h(P): return P[len(Y) + k]` in the main loop with Y = the parameter (any parameter name) or a global whose parse-time copy has "
-                 "at every call the length it had at the function's first call (F-C09-stale-len-function-first-call-out-of-bounds). single_owner (coq/Device/DListProg.v): lists are declared "
-                 "before the main loop from a literal or a range comprehension, each under a fresh name; afterwards only append / remove / "
-                 "index / by-value read-only call / `x = x` / `x.append(y[i])`, `x.remove(y[i])` with x, y declared (possibly the same) / tuple assignment "
-                 "whose right-hand sides are its (declared, pairwise different) targets in another order. Outside (listed findings): tuple assignment with a literal "
-                 "(F-C09-tuple-assignment-literal-leak), a list assigned from a call that returns THAT list (`a = ident(a)`: F-C09-assign-from-call-self-alias-use-after-free), stale folded len() "
-                 "(F-C09-stale-len-*: outside len_ok), `b = a` (F-C09-alias-use-after-free, "
-                 "F-C09-alias-double-free, F-C09-clone-divergence-heap-growth, F-C09-clone-divergence-out-of-bounds), re-assignment from a literal or comprehension (F-C09-reassign-temporary-leak), list first "
-                 "assigned inside the main loop (F-C09-loop-local-leak), function mutating its list parameter "
-                 "(F-C09-byvalue-param-use-after-free). Oracle also requires CPython to run the script without any exception. Programs "
-                 "outside the guard still go through the correspondence (the model contains the defects).",
-        "unmodelled": ["the heap behaviour INSIDE String elements and str indexing (Arduino String of the mock; element values are abstract in the model). Lists OF strings "
+        "guard": "FULL domain (memory-safety clause and leak clause): single_owner OR len_ok OR frozen_ok (harness guard_so / track_py / guard_fz, each cross-checked against the model's bit on every case) OR "
+                 "[value_ok (harness guard_vs, cross-checked against the model's bit: every name is declared when a statement uses it) AND CPython's run equals, name by name after every statement, the run with VALUE "
+                 "semantics (harness sim2: no alias is ever observable)]. SAFETY-ONLY domain (memory-safety clause): value_ok AND CPython raises nothing AND the value-semantics run indexes inside its lists - `b = a` then "
+                 "mutation, by-value parameters the callee mutates, `x = ident(y)`, tuple assignments with repeated names; the leak clause is not judged there and an index that is valid in CPython only because of an alias is "
+                 "outside (listed findings F-C09-clone-divergence-heap-growth, F-C09-clone-divergence-out-of-bounds, F-C09-call-result-copy-heap-varies: the firmware copies where Python aliases - a VALUE divergence, property C01). "
+                 "single_owner (coq/Device/DListProg.v): lists declared before the main loop from a literal or a range comprehension, each under a fresh name; afterwards append / remove / index / by-value read-only call / "
+                 "`x = x` / `x.append(y[i])`, `x.remove(y[i])`; tuple assignments are outside single_owner and len_ok since the repair (covered by value_ok). frozen_ok: read-only sharing as before. len_ok: as before, without "
+                 "tuple assignments. The seven ownership findings (alias use-after-free / double free, by-value parameter, loop-local leak, re-assignment temporary leak, `a = ident(a)`, tuple literal leak) are kind=fixed: their "
+                 "witnesses are replayed first and a failing one is a VIOLATION. Oracle also requires CPython to run the script without any exception. Programs outside the domains still go through the correspondence.",
+        "unmodelled": ["the Python-simulation theorems (heap usage = CPython's live data: C09_python_safe_partial, C09_no_leak_partial, C09_len_fold_*) do not cover tuple assignments any more - with value semantics a tuple assignment is a block of copies "
+                       "(temporaries __tmp_assign_k, copy assignments, destructors), proved memory-safe and leak-free for every program by C09_value_semantics_safe, exercised by the correspondence and judged by the oracle, but the simulation proof for permutations was not redone "
+                       "(C09_stale_len_rebind_repaired keeps only its computed run facts)",
+                       "lifetime of temporaries and by-value parameters INSIDE a statement / block: the model destroys the temporaries of a tuple assignment right after its stores (the C++ objects live until the closing brace of the enclosing block) and reads "
+                       "through the caller's buffer where a callee only reads its by-value copy (f(xs, k), ident(xs)): allocation and release of such a copy cancel; heap usage is observed after setup() and after every pass only",
+                       "the heap behaviour INSIDE String elements and str indexing (Arduino String of the mock; element values are abstract in the model). Lists OF strings "
                        "are exercised (family *-strings: rotations through own elements, elements of other lists, permutations, reads) and compared with the model on "
                        "printed values, live blocks and live bytes (32 bytes per String + 8 per block under the mock)",
                        "C int overflow in __redu_list_from_range's counting loop; element type conversions (static_cast<T>)",
@@ -1761,11 +2007,25 @@ def replay(data):
     if not isinstance(prog, dict):
         print("replay: no program in this file (correspondence / proof failure: see the fields above)")
         return 0
+    if prog.get("lines"):
+        prog.setdefault("setup", [])
+        prog.setdefault("body", [])
     res = run_all([prog])[0]
-    if not (guard_py(prog) and py_ok(res["py"], prog["N"])):
+    if prog.get("lines") or data.get("key", "").startswith("fixed-finding-returned") or (case.get("finding")):
+        # witness of a listed (fixed) finding: CPython must run it, the firmware must run clean with constant heap usage
+        if not py_ok(res["py"], prog["N"]):
+            print("replay: CPython raises on this witness")
+            return 0
+        F = oracle(prog, res, leak=True)
+        for key, what, exp, obs in F:
+            print(f"REPRODUCED [{key}] {what} (expected {exp}, observed {obs})")
+        if not F:
+            print("replay: the property holds on this case now")
+        return 1 if F else 0
+    if not ((guard_py(prog) or guard_safe(prog)) and py_ok(res["py"], prog["N"])):
         print("replay: the program is outside the oracle's domain (guard / CPython exception)")
         return 0
-    F = oracle(prog, res)
+    F = oracle(prog, res, leak=guard_py(prog))
     for key, what, exp, obs in F:
         print(f"REPRODUCED [{key}] {what} (expected {exp}, observed {obs})")
     if not F:
